@@ -269,15 +269,18 @@ theorem HInv.closeSock {s : HS} (h : HInv s) (o : String)
 /-- `open` on a socket, or on an acceptor that has just been closed -/
 theorem HInv.openSock {s : HS} (h : HInv s) (o : String)
     (v : SockV) (hv : s.net.sv o = some v)
-    (hq : ∀ ac, v.acc = some ac → ac.queueLimit ≤ 0 ∧ ac.conns = []) (v4 : Bool) :
-    HInv { s with net := (s.net.tcpOpen s.now o v4).1, bag := s.bag ++ fwdPkts (s.net.tcpOpen s.now o v4).2 } := by
+    (hq : ∀ ac, v.acc = some ac → ac.queueLimit ≤ 0 ∧ ac.conns = []) (v4 : Bool) (extra : List ConDone)
+    (hx : extra = [] ∨ ∃ c hh k, v.chan = some c ∧ v.connectH = some hh ∧ extra = [k]
+            ∧ k.cid = some c ∧ k.sock = o ∧ k.ec ≠ .ok) :
+    HInv { s with net := (s.net.tcpOpen s.now o v4).1, bag := s.bag ++ fwdPkts (s.net.tcpOpen s.now o v4).2,
+                  conLog := s.conLog ++ extra } := by
   obtain ⟨c1, c2, c3, c4, c5, c6, c7, _, c9⟩ := tcpOpen_sum s.net s.now o v4 v hv
   have cnp := tcpOpen_np s.net s.now o v4
   generalize s.net.tcpOpen s.now o v4 = r at *
   obtain ⟨n', e⟩ := r
   simp only at c1 c2 c3 c4 c5 c6 c7 c9 cnp ⊢
   obtain ⟨hregm, hregl⟩ := reg_after_unbind c4
-  have := h.upd1 o ⟨true, {}, some s.net.fwds.length, none, none, v.acc⟩ n' (s.bag ++ fwdPkts e) []
+  exact h.upd1 o ⟨true, {}, some s.net.fwds.length, none, none, v.acc⟩ n' (s.bag ++ fwdPkts e) extra
     c1 (by rw [c2]; omega) c3 c6 c5
     (fun e he => Or.inl (hregm e he))
     (fun e he ho ac hac => by
@@ -314,9 +317,10 @@ theorem HInv.openSock {s : HS} (h : HInv s) (o : String)
       · exact Or.inl hp
       · exact Or.inr (errs_not_syn c9 pk hp))
     (pairwise_append_errs h.b_syn1 (fun q hq => (errs_not_syn c9 q hq).1))
-    (Or.inl rfl)
-  simp only [List.append_nil] at this
-  exact this
+    (by
+      rcases hx with hx | ⟨c, hh, k, x1, x2, x3, x4, x5, x6⟩
+      · exact Or.inl hx
+      · exact Or.inr ⟨v, c, hh, k, hv, x1, x2, x3, x4, x5, fun hk => absurd hk x6, fun hc => by cases hc⟩)
 
 /-! ### `acceptor::open` (close first, then open: a new listening epoch) and `bind` -/
 
@@ -334,8 +338,8 @@ theorem HFull.openAcc {s : HS} (h : HFull s) (a : String) (v4 : Bool) (tp : TPar
   have h2 := h1.inv.openSock a _ hv1
     (fun ac1 hac1 => by
       simp only [Option.some.injEq] at hac1; subst hac1
-      exact ⟨by show (-1 : Int) ≤ 0; omega, rfl⟩) v4
-  simp only at h2
+      exact ⟨by show (-1 : Int) ≤ 0; omega, rfl⟩) v4 [] (Or.inl rfl)
+  simp only [List.append_nil] at h2
   obtain ⟨_, _, _, _, d5, _⟩ := tcpOpen_sum n1 s.now a v4 _ hv1
   refine ⟨h2, ?_⟩
   apply work_upd h1.work a _ _ d5 _ _ rfl
@@ -343,16 +347,19 @@ theorem HFull.openAcc {s : HS} (h : HFull s) (a : String) (v4 : Bool) (tp : TPar
   simp only [Option.some.injEq] at hac1; subst hac1
   cases hpe
 
-theorem HFull.bindAcc {s : HS} (h : HFull s) (a : String) (ep : Ep) (hok : s.net.isAcc a) :
+theorem HFull.bind {s : HS} (h : HFull s) (a : String) (ep : Ep)
+    (hok : ∃ sk, s.net.tcp? a = some sk ∧ sk.chan = none) :
     HFull { s with net := (s.net.tcpBind a ep).1 } := by
-  obtain ⟨va, ac, hva, hac⟩ := isAcc_view hok
-  obtain ⟨s0, hs0, hv0⟩ := sv_some hva
+  obtain ⟨s0, hs0, hs0c⟩ := hok
+  have hva : s.net.sv a = some s0.hview := by simp [NetSt.sv, hs0]
+  have hvch : s0.hview.chan = none := hs0c
+  generalize hvdef : s0.hview = va at hva hvch
+  have hv0 : s0.hview = va := hvdef
   obtain ⟨b1, b2, b3, b4⟩ := tcpBind_sum s.net a ep s0 hs0
   obtain ⟨bnp, bnd⟩ := tcpBind_np s.net a ep h.inv.np_pos
   generalize s.net.tcpBind a ep = r at *
   obtain ⟨n', ec⟩ := r
   simp only at b1 b2 b3 b4 bnp bnd ⊢
-  have hvch : va.chan = none := h.inv.a_chan a va ac hva hac
   have hnd : ∀ e ∈ n'.reg.tcp, e.1.isDefault = false := by
     intro e he
     rcases bnd e he with h1 | h1
@@ -375,11 +382,11 @@ theorem HFull.bindAcc {s : HS} (h : HFull s) (a : String) (ep : Ep) (hok : s.net
         rcases List.mem_append.mp he with he | he
         · exact Or.inl he
         · rw [List.mem_singleton] at he; subst he; exact Or.inr rfl)
-      (fun e he ho ac1 _ => by
+      (fun e he ho ac1 hac1 => by
         rw [r2] at he
         rcases List.mem_append.mp he with he | he
-        · -- no older entry of `a`: it was unbound, and the registry never holds `0.0.0.0:0`
-          have hb := h.inv.reg_own e he va ac (by rw [ho]; exact hva) hac
+        · -- no older entry of an acceptor `a`: it was unbound, and the registry never holds `0.0.0.0:0`
+          have hb := h.inv.reg_own e he va ac1 (by rw [ho]; exact hva) hac1
           have := h.inv.reg_nodef e he
           rw [← hb, hdef'] at this; cases this
         · rw [List.mem_singleton] at he; subst he; rfl)
@@ -396,8 +403,7 @@ theorem HFull.bindAcc {s : HS} (h : HFull s) (a : String) (ep : Ep) (hok : s.net
       (Or.inl (by simp [hva])) (fun _ _ => by simp [hva]) (fun hop => h.inv.o_fwd a va hva hop)
       (fun _ _ => hvch) (fun ac1 hac1 hcl => by simp only at hcl; rw [hopn'] at hcl; cases hcl)
       (fun ac1 hac1 hq => by
-        simp only at hac1; rw [hac] at hac1; cases hac1
-        have := h.inv.a_lis a va ac hva hac hq; rw [hdef'] at this; cases this)
+        have := h.inv.a_lis a va ac1 hva hac1 hq; rw [hdef'] at this; cases this)
       (fun ac1 hac1 hf => by have := (h.inv.s_fwd a va _ hva hf).1; omega)
       (fun v0 hv0' hf => by
         right; intro d hd hdf
@@ -563,6 +569,15 @@ theorem HFull.close {s : HS} (h : HFull s) (o : String) (tp : TParams) (hok : s.
   simp only [HS.step]
   refine ⟨h.inv.closeSock o v hv hvacc _ (h.inv.pendAbort_ok o v hv), ?_⟩
   obtain ⟨_, _, _, _, c5, _⟩ := tcpClose_sum s.net s.now o v hv
+  apply work_upd h.work o _ _ c5 _ _ rfl
+  intro ac hac; simp only at hac; rw [hvacc] at hac; cases hac
+
+theorem HFull.openSockL {s : HS} (h : HFull s) (o : String) (v4 : Bool) (tp : TParams) (hok : s.net.isSock o) :
+    HFull (s.step tp (.openSock o v4)) := by
+  obtain ⟨v, hv, hvacc⟩ := isSock_view hok
+  simp only [HS.step]
+  refine ⟨h.inv.openSock o v hv (fun ac hac => by rw [hvacc] at hac; cases hac) v4 _ (h.inv.pendAbort_ok o v hv), ?_⟩
+  obtain ⟨_, _, _, _, c5, _⟩ := tcpOpen_sum s.net s.now o v4 v hv
   apply work_upd h.work o _ _ c5 _ _ rfl
   intro ac hac; simp only at hac; rw [hvacc] at hac; cases hac
 
@@ -1023,7 +1038,9 @@ theorem HFull.connect {s : HS} (h : HFull s) (c : String) (target : Ep)
       simp only [hopn, Bool.not_false, if_true] at hr1
       subst hr1
       obtain ⟨_, _, _, _, c5, _, _, _, c9⟩ := tcpOpen_sum s.net s.now c target.isV4 sk.hview hvk
-      refine ⟨h.inv.openSock c sk.hview hvk (fun ac hac => by rw [hvkacc] at hac; cases hac) target.isV4,
+      have ho := h.inv.openSock c sk.hview hvk (fun ac hac => by rw [hvkacc] at hac; cases hac) target.isV4 [] (Or.inl rfl)
+      simp only [List.append_nil] at ho
+      refine ⟨ho,
         fun o' ho' => by rw [c5 o', if_neg ho'], ⟨_, by rw [c5 c, if_pos rfl], rfl, rfl, hskacc⟩, c9⟩
   obtain ⟨h1, hso1, ⟨v1, hv1, hv1c, hv1o, hv1a⟩, herr⟩ := S1 _ rfl
   generalize (if !sk.isOpen then s.net.tcpOpen s.now c target.isV4 else (s.net, [])) = r1 at *
@@ -1202,7 +1219,8 @@ theorem HFull.step {s : HS} (h : HFull s) (tp : TParams) (l : HLbl) (hok : s.ok 
   cases l with
   | tick t => exact h.tick t
   | openAcc a v4 => exact h.openAcc a v4 tp hok
-  | bindAcc a ep => exact h.bindAcc a ep hok
+  | bind o ep => exact h.bind o ep hok
+  | openSock o v4 => exact h.openSockL o v4 tp hok
   | listen a qs => exact h.listen a qs hok
   | accept a op => exact h.accept a op tp hok
   | cancelAcc a => exact h.cancelAcc a hok
